@@ -31,6 +31,10 @@ def _ops(stmts_faulty, pools, interrupts=True, ks=(1, 0), extra_flags=()):
             if t[3] > 1:
                 continue
             ops.append(ninja_op(jobserver=_js(t), interrupt=True, flags=extra_flags))
+    # tokens of other values than '+': the protocol allows any byte (0x00 and 0xff included)
+    for byte in (0, 255, ord("|")):
+        js = dict(_js(pools[2]), byte=byte)
+        ops.append(ninja_op(jobserver=js, flags=extra_flags, label="ninja -k1 jobserver[2 tokens of value 0x%02x]" % byte))
     # an explicit -j makes ninja ignore the pool: it must not touch it
     ops.append(ninja_op(j=2, jobserver=_js(pools[2]), explicit_j=True))
     return ops
